@@ -1,5 +1,5 @@
 (** Request dispatch: one request line in, one response line out. *)
-From Cel.Model Require Export Wire Arith Compare Macros Parser Refs WireData.
+From Cel.Model Require Export Wire Arith Compare Macros Parser Refs WireData WireSpec.
 Open Scope string_scope.
 
 Definition bad (why : string) : sexp := tagged "bad-request" [Atom why].
@@ -106,6 +106,28 @@ Definition handle (req : sexp) : sexp :=
           | COutOfFuel => Atom "(out-of-fuel)"
           end
       | None => bad "refs"
+      end
+  | SList [Atom "c03"; c; g; t; src] =>
+      match ctx_of_sexp c, tenv_of_sexp g, texpr_of_sexp t, opt_str src with
+      | Some c', Some g', Some t', Some s =>
+          match compile s with
+          | CExpr e =>
+              let status :=
+                if negb (String.eqb (print_sexp (sexp_of_expr e)) (print_sexp (sexp_of_expr (lower t')))) then
+                  tagged "lower-mismatch" [sexp_of_expr e; sexp_of_expr (lower t')]
+                else match type_of g' t' with
+                     | None => Atom "untyped"
+                     | Some ty => if env_okb g' (env_of c') then tagged "typed" [sexp_of_ty ty]
+                                  else Atom "env-mismatch"
+                     end in
+              let r := eval c' e in
+              tagged "c03" [status; sexp_of_outcome sexp_of_value (fst r);
+                            tagged "log" (map sexp_of_event (snd r));
+                            sexp_of_outcome sexp_of_value (sem (env_of c') t')]
+          | CReject => Atom "(reject)"
+          | COutOfFuel => Atom "(out-of-fuel)"
+          end
+      | _, _, _, _ => bad "c03"
       end
   | SList [Atom "ser"; d] =>
       match sdata_of_sexp d with
